@@ -117,7 +117,8 @@ def dump_steps(roots):
         return key
 
     rootKeys = [visit(s, 0) for s in roots if s.isValid()]
-    return {"steps": out, "roots": rootKeys}
+    from bob.utils import getPlatformTag
+    return {"steps": out, "roots": rootKeys, "platform": getPlatformTag().hex()}
 
 
 def install_hooks(tick, job, res):
